@@ -565,7 +565,12 @@ func (a *mrAnalysis) sortedAfter(al *ssa.Alloc) string {
 			case "Strings", "Ints", "Float64s":
 				return "sort." + callee.Name() + " (total order on the values)"
 			case "Slice", "SliceStable", "Sort", "Stable":
-				return "sort." + callee.Name() + " (canonical only if the comparator is total on distinct elements: see the sort-site obligation)"
+				// canonical only if the comparator orders every two distinct elements: accepted when
+				// the function's contract asks for that obligation (opt sort-total yes), which the
+				// verifier then generates at the sort site
+				if fc := a.eng.contractFor(a.s.Fn); fc != nil && fc.Opts["sort-total"] == "yes" {
+					return "sort." + callee.Name() + " (comparator proved total on distinct elements: obligation sort[total-on-distinct])"
+				}
 			}
 		}
 	}
